@@ -93,7 +93,11 @@ func (in *Interp) toNative(v Value, t reflect.Type) reflect.Value {
 	case reflect.Uint8, reflect.Uint, reflect.Uint64, reflect.Uint32, reflect.Uint16:
 		return reflect.ValueOf(v.(Int).v).Convert(t)
 	case reflect.Float64, reflect.Float32:
-		return reflect.ValueOf(v.(float64)).Convert(t)
+		f, ok := v.(float64)
+		if !ok {
+			unsup("a symbolic float reaches a native library function")
+		}
+		return reflect.ValueOf(f).Convert(t)
 	case reflect.Slice:
 		s := v.(Slice)
 		out := reflect.MakeSlice(t, s.len, s.len)
@@ -179,8 +183,26 @@ func (in *Interp) nativeCall(rf reflect.Value, args []Value, res *types.Tuple) V
 		}
 		in_[i] = in.toNative(a, pt)
 	}
-	out := rf.Call(in_)
+	out := in.callNativeGuarded(rf, in_)
 	return in.nativeResults(out, res)
+}
+
+// callNativeGuarded runs a library function natively on concrete arguments. A panic it raises (strings.Repeat with a
+// negative count, a slice bound inside the library) is a panic of the program under test at this call, not a fault
+// of the engine.
+func (in *Interp) callNativeGuarded(rf reflect.Value, args []reflect.Value) (out []reflect.Value) {
+	defer func() {
+		if r := recover(); r != nil {
+			if _, own := r.(goPanic); own {
+				panic(r)
+			}
+			if _, own := r.(pathEnd); own {
+				panic(r)
+			}
+			panic(goPanic{val: fmt.Sprint(r), where: in.whereNow()})
+		}
+	}()
+	return rf.Call(args)
 }
 
 func (in *Interp) nativeResults(out []reflect.Value, res *types.Tuple) Value {
